@@ -21,6 +21,7 @@ type GenOpts struct {
 	Exposure  bool // bias towards the shapes exposure analysis cares about
 	HasOut    bool
 	KindsFree bool // any of the 8 workload kinds and expressions
+	Shared    bool // some workloads of different namespaces share one name
 }
 
 var (
@@ -330,8 +331,14 @@ func Gen(r *rand.Rand, o GenOpts) *World {
 		}
 	}
 	nwl := 1 + r.Intn(o.MaxWl)
+	sharedIn := map[string]bool{}
 	for i := 0; i < nwl; i++ {
-		w.Workloads = append(w.Workloads, g.Workload(i))
+		wl := g.Workload(i)
+		if o.Shared && r.Intn(2) == 0 && !sharedIn[wl.NS] {
+			sharedIn[wl.NS] = true
+			wl.Name = "shared"
+		}
+		w.Workloads = append(w.Workloads, wl)
 	}
 	if o.MaxNP > 0 {
 		for i, n := 0, r.Intn(o.MaxNP+1); i < n; i++ {
